@@ -6,11 +6,17 @@ package imagemeta_test
 import (
 	"bytes"
 	"encoding/binary"
+	"io"
+	"strings"
 	"testing"
 	"testing/iotest"
 
 	"github.com/evanoberholster/imagemeta"
 	"github.com/evanoberholster/imagemeta/exif2"
+	"github.com/evanoberholster/imagemeta/imagetype"
+	"github.com/evanoberholster/imagemeta/meta"
+	"github.com/evanoberholster/imagemeta/meta/utils"
+	"github.com/rs/zerolog"
 )
 
 type ent struct {
@@ -157,4 +163,71 @@ func TestConfirmSubIfdCountOverflow(t *testing.T) {
 	z := uint32(0)
 	b := tiff([]ent{{0x014a, 4, 0x40000002, off}}, &z, make([]byte, 64))
 	noPanic(t, "Decode", func() { imagemeta.Decode(bytes.NewReader(b)) })
+}
+
+// C03: a one-character ASCII value ("A\0") was reported as empty: the trailing-NUL trim scanned down to index 1 only.
+func TestConfirmOneCharString(t *testing.T) {
+	// Make = "A" (embedded, count 2), Software = "B" out of line is not possible (count 2 fits), so test embedded only
+	b := tiff([]ent{{0x010F, 2, 2, 0x00000041}, {0x0131, 2, 3, 0x00004342}}, new(uint32), make([]byte, 16))
+	e, err := imagemeta.DecodeTiff(bytes.NewReader(b))
+	if err != nil || e.Make != "A" || e.Software != "BC" {
+		t.Errorf("err=%v Make=%q Software=%q, want \"A\" and \"BC\"", err, e.Make, e.Software)
+	}
+}
+
+// C03: an ASCII value longer than the 4 KiB look-ahead buffer was reported as its first 4096 bytes, without an error.
+func TestConfirmLongString(t *testing.T) {
+	for _, n := range []int{4095, 4096, 4097, 5000, 9000} {
+		long := strings.Repeat("x", n)
+		payload := cStream(8, []cEnt{cASCII(0x010f, "Canon"), cASCII(0x010e, long), cASCII(0x0131, "SoftwareName 1.0")})
+		tf := append(append([]byte{}, payload...), make([]byte, 64)...)
+		e, err := imagemeta.DecodeTiff(bytes.NewReader(tf))
+		if err != nil || e.ImageDescription != long || e.Software != "SoftwareName 1.0" {
+			t.Errorf("n=%d: err=%v len(ImageDescription)=%d software=%q", n, err, len(e.ImageDescription), e.Software)
+		}
+	}
+}
+
+// C08: the unbuffered discard returned the io.EOF that came with the last bytes although the skip was complete:
+// DecodeJPEGIfd over a plain reader holding exactly the Exif block failed where bytes.Reader succeeded.
+func TestConfirmDiscardEOFWithLastBytes(t *testing.T) {
+	b := tiff([]ent{{0x010F, 2, 4, 0x00434241}}, new(uint32), make([]byte, 32))
+	h := meta.NewExifHeader(utils.LittleEndian, 8, 0, uint32(len(b)), imagetype.ImageJPEG)
+	for name, mk := range map[string]func() io.Reader{
+		"bytes.Reader":  func() io.Reader { return bytes.NewReader(b) },
+		"DataErrReader": func() io.Reader { return iotest.DataErrReader(bytes.NewReader(b)) },
+	} {
+		ir := exif2.NewIfdReader(zerolog.Nop())
+		err := ir.DecodeJPEGIfd(struct{ io.Reader }{mk()}, h)
+		if err != nil || ir.Exif.Make != "ABC" {
+			t.Errorf("%s: err=%v Make=%q", name, err, ir.Exif.Make)
+		}
+		ir.Close()
+	}
+}
+
+// C03 SUBSEC: SubSecTime holds fraction digits; only 3- and 6-digit values came out right.
+func TestConfirmSubSecDigits(t *testing.T) {
+	for _, c := range []struct {
+		digits string
+		ms     int
+	}{{"5", 500}, {"45", 450}, {"123", 123}, {"1234", 123}, {"123456", 123}} {
+		val := append([]byte(c.digits), 0)
+		date := cASCII(0x0132, "2020:01:02 03:04:05")
+		sub := cEnt{0x9290, 2, uint32(len(val)), val}
+		exifIFD := cIFD(200, []cEnt{sub})
+		ptr := make([]byte, 4)
+		binary.LittleEndian.PutUint32(ptr, 200)
+		p := cStream(8, []cEnt{date, {0x8769, 4, 1, ptr}})
+		p = append(p, make([]byte, 200-len(p))...)
+		p = append(p, exifIFD...)
+		p = append(p, make([]byte, 64)...)
+		e, err := imagemeta.DecodeTiff(bytes.NewReader(p))
+		if err != nil {
+			t.Fatalf("%q: %v", c.digits, err)
+		}
+		if got := e.ModifyDate().Nanosecond() / 1e6; got != c.ms {
+			t.Errorf("SubSecTime %q: %d ms, want %d", c.digits, got, c.ms)
+		}
+	}
 }
